@@ -57,22 +57,31 @@ def do_run(seed, tiers):
             for d in meta["demo"]:
                 os.remove(os.path.join(wt, d["pkg"], d["file"]))
             return all(res), res
-        ok_without, _ = demo()
-        log["demo_passes_without_patch"] = ok_without
-        a = sh("git apply %s" % os.path.join(seed, "patch.diff"), cwd=wt)
-        log["patch_applies"] = a.returncode == 0
-        b = sh("go build ./...", cwd=wt)
-        log["builds"] = b.returncode == 0
-        s = sh("go test -vet=off -count=1 ./... 2>&1 | tail -40", cwd=wt, timeout=1800)
-        for attempt in range(4):
+        fast = "--recheck" in sys.argv and meta.get("confirmed") and meta.get("confirmation")
+        if fast:
+            # the seed was confirmed in full when it was imported (demo without/with the patch, pinned suite): only make
+            # sure the patch still applies and builds on today's tree, then run the check
+            a = sh("git apply %s" % os.path.join(seed, "patch.diff"), cwd=wt)
+            b = sh("go build ./...", cwd=wt)
+            log = dict(meta["confirmation"], patch_applies=a.returncode == 0, builds=b.returncode == 0)
+        ok_without, _ = (True, None) if fast else demo()
+        log["demo_passes_without_patch"] = ok_without if not fast else log["demo_passes_without_patch"]
+        if not fast:
+            a = sh("git apply %s" % os.path.join(seed, "patch.diff"), cwd=wt)
+            log["patch_applies"] = a.returncode == 0
+            b = sh("go build ./...", cwd=wt)
+            log["builds"] = b.returncode == 0
+        s = sh("go test -vet=off -count=1 ./... 2>&1 | tail -40", cwd=wt, timeout=1800) if not fast else None
+        for attempt in range(0 if fast else 4):
             # webserver's TestApi listens on a hard-coded port; other suites running on this machine clash with it
             if "FAIL" in s.stdout and ("could not start server" in s.stdout or "galene/webserver" in s.stdout):
                 time.sleep(7)
                 s = sh("go test -vet=off -count=1 ./... 2>&1 | tail -40", cwd=wt, timeout=1800)
-        log["suite_tail"] = s.stdout[-600:] if "FAIL" in s.stdout else ""
-        log["pinned_suite_passes_with_patch"] = "FAIL" not in s.stdout and s.returncode == 0
-        ok_with, _ = demo()
-        log["demo_fails_with_patch"] = not ok_with
+        if not fast:
+            log["suite_tail"] = s.stdout[-600:] if "FAIL" in s.stdout else ""
+            log["pinned_suite_passes_with_patch"] = "FAIL" not in s.stdout and s.returncode == 0
+            ok_with, _ = demo()
+            log["demo_fails_with_patch"] = not ok_with
         confirmed = all([log["demo_passes_without_patch"], log["patch_applies"], log["builds"], log["pinned_suite_passes_with_patch"], log["demo_fails_with_patch"]])
         meta["confirmed"] = confirmed
         meta["confirmation"] = log
